@@ -3,8 +3,12 @@ package c15
 
 import (
 	"bytes"
+	"context"
 	"errors"
+	"fmt"
 	"io"
+	"os"
+	"syscall"
 
 	"go.pennock.tech/tabular"
 	"go.pennock.tech/tabular/auto"
@@ -28,7 +32,7 @@ type Case struct {
 	Align  []int      `json:"align,omitempty"`
 	K      *int       `json:"k,omitempty"`
 	Mode   string     `json:"mode,omitempty"`
-	// Err: which error value the writer reports: "" a private error, "eof" io.EOF, "short" io.ErrShortWrite, "closed" io.ErrClosedPipe
+	// Err: which error value the writer reports: "" a private error, "eof" io.EOF, "short" io.ErrShortWrite, "closed" io.ErrClosedPipe, "epipe" a PathError over EPIPE, "wrapped" a %w chain, "nocause" an error whose Unwrap gives nil, "deadline", "canceled"
 	Err string `json:"err,omitempty"`
 	// Rich: the writer also offers WriteString and WriteByte (like bytes.Buffer and bufio.Writer); a call to any of the three counts
 	Rich bool `json:"rich,omitempty"`
@@ -84,9 +88,28 @@ func errOf(kind string) error {
 		return io.ErrShortWrite
 	case "closed":
 		return io.ErrClosedPipe
+	case "epipe":
+		return &os.PathError{Op: "write", Path: "|1", Err: syscall.EPIPE} // what a File gives once the reader has gone
+	case "wrapped":
+		return fmt.Errorf("flush: %w", errors.New("device full"))
+	case "nocause":
+		return &causeErr{msg: "write refused"} // has an Unwrap method, and nothing to unwrap
+	case "deadline":
+		return os.ErrDeadlineExceeded // Timeout() is true: a retryable look, still a failed write
+	case "canceled":
+		return context.Canceled
 	}
 	return nil
 }
+
+// causeErr is an error with an optional cause (unset here).
+type causeErr struct {
+	msg   string
+	cause error
+}
+
+func (e *causeErr) Error() string { return e.msg }
+func (e *causeErr) Unwrap() error { return e.cause }
 
 func (c Case) writer(fw *faultWriter) io.Writer {
 	fw.err = errOf(c.Err)
